@@ -643,6 +643,71 @@ class Gen:
         return spends
 
 
+def matrix_cases(g):
+    """systematic sweep: every known opcode x every argument shape, each in a context in which the VALID shape is
+    accepted (ephemeral pair for ASSERT_EPHEMERAL, matching counterpart for assertions, balanced message pair), under
+    lenient and strict flags.  Deterministic apart from the key / hash material."""
+    r = g.r
+    out = []
+    for name in OPC:
+        for shape in SHAPES:
+            for strict in (0, FLAG["STRICT_ARGS_COUNT"], FLAG["STRICT_ARGS_COUNT"] | FLAG["NO_UNKNOWN_CONDS"]):
+                a = g.new_spend(parent=r.bytes(32), amount=1000)
+                a["budget"] = []
+                spends = [a]
+                target = a
+                msg = b"hello"
+                if name == "ASSERT_EPHEMERAL":
+                    cph = r.choice(g.phs)
+                    g.add_raw(a, "CREATE_COIN", [cph, canon(10)])
+                    target = g.new_spend(parent=a["id"], ph=cph, amount=10)
+                    target["budget"] = []
+                    spends.append(target)
+                if name == "ASSERT_COIN_ANNOUNCEMENT":
+                    g.add_raw(a, "CREATE_COIN_ANNOUNCEMENT", [msg]); args = [sha256(a["id"] + msg)]
+                elif name == "ASSERT_PUZZLE_ANNOUNCEMENT":
+                    g.add_raw(a, "CREATE_PUZZLE_ANNOUNCEMENT", [msg]); args = [sha256(a["ph"] + msg)]
+                elif name == "ASSERT_CONCURRENT_SPEND":
+                    args = [a["id"]]
+                elif name == "ASSERT_CONCURRENT_PUZZLE":
+                    args = [a["ph"]]
+                elif name == "SEND_MESSAGE":
+                    g.add_raw(a, "RECEIVE_MESSAGE", [canon(0), msg]); args = [canon(0), msg]
+                elif name == "RECEIVE_MESSAGE":
+                    g.add_raw(a, "SEND_MESSAGE", [canon(0), msg]); args = [canon(0), msg]
+                elif name == "ASSERT_MY_COIN_ID":
+                    args = [a["id"]]
+                elif name == "ASSERT_MY_PARENT_ID":
+                    args = [a["parent"]]
+                elif name == "ASSERT_MY_PUZZLEHASH":
+                    args = [a["ph"]]
+                elif name == "ASSERT_MY_AMOUNT":
+                    args = [canon(a["amount"])]
+                elif name in AGG:
+                    pk = g.key(); a["keys"].append(pk); args = [pk, msg]
+                elif name == "CREATE_COIN":
+                    args = [r.choice(g.phs), canon(7), to_list([r.bytes(32)])] if shape in ("valid", "extra", "non-nil-term") and r.chance(1, 2) else [r.choice(g.phs), canon(7)]
+                elif name in ("CREATE_COIN_ANNOUNCEMENT", "CREATE_PUZZLE_ANNOUNCEMENT"):
+                    args = [msg]
+                elif name == "RESERVE_FEE":
+                    args = [canon(5)]
+                elif name == "SOFTFORK":
+                    args = [canon(3)]
+                elif name in ("REMARK", "ASSERT_EPHEMERAL"):
+                    args = []
+                else:
+                    size = [sz for (ln, sz) in LOCKS if ln == name][0]
+                    args = [canon(r.choice([1, 100, (1 << (8 * size)) - 1]))]
+                int_idx = {"CREATE_COIN": 1, "SEND_MESSAGE": 0, "RECEIVE_MESSAGE": 0}.get(name, 0)
+                target["conds"].append(g.cond(name, args, shape, int_idx=int_idx, hash_idx=0))
+                target["tags"].append((name, shape))
+                keys = [k for s in spends for k in s["keys"]]
+                out.append({"tree": g.bundle_tree(spends), "flags": 0x10000 | strict | (0x800000 if r.chance(1, 2) else 0), "visitor": r.below(2),
+                            "max_cost": 11000000000, "clvm_cost": 0, "tags": [(name, shape)], "scenario": "matrix", "keys": keys,
+                            "spends": spends, "std": True})
+    return out
+
+
 def case_line(c, consts_hex, valid_keys):
     keys = b"".join(k for k in dict.fromkeys(c["keys"]) if k in valid_keys)
     return "cond.parse %d %d %d %d %s %s %s" % (c["flags"], c["visitor"], c["max_cost"], c["clvm_cost"], consts_hex,
